@@ -17,6 +17,7 @@ C14 ops of the `schema` model driver (all stateless):
   frame1 len=<n> max=<max_buffer_size>          -> "open grown=<0|1>" | "closed"   (first frame of an accepted QUIC connection)
   dateq n=<parallelism> k=<requests> d=<date>  -> "alive" | "dead"     (daily-nodes request with a peer-supplied date)
   frame t=<type> b=<hex> , invite b=<hex>     -> "explored"           (byte-level exploration, no verdict)
+  dlock n=<parallelism> k=<daily-log requests>  -> "explored"          (timing-dependent actor/writer deadlock, no verdict)
 -/
 open Discret Discret.Proto Discret.Peg
 
@@ -152,6 +153,10 @@ def step (d : Adm.Defects) (line : String) : Option String :=
     match nat? rest "len", nat? rest "max" with
     | some len, some mx => if len > 0x48000000 || mx ≥ 0x10000000 then some "bad-op" else
         some (if Adm.firstFrameAccepted d len mx then s!"open grown={if len ≥ 0x10000000 then 1 else 0}" else "closed")
+    | _, _ => some "bad-op"
+  | "dlock" :: rest =>
+    match nat? rest "n", nat? rest "k" with
+    | some n, some k => if n == 0 || n > 8 || k > 64 then some "bad-op" else some "explored"
     | _, _ => some "bad-op"
   | "frame" :: rest =>
     match kv' rest "t", (kv' rest "b").bind fun b => hexBytes b.toList with
